@@ -150,6 +150,7 @@ def run(ctx: RuleContext, p: Program) -> None:
     ctx.try_rule(rule_eq_wrap, p, 'EQ-WRAP')
     from . import round4
     ctx.try_rule(round4.rule_eq_shape, p, 'EQ-SHAPE')
+    ctx.try_rule(round4.rule_id_cmp, p, 'ID-CMP')
     ctx.not_decided += ['equality of two parses of one text (runtime)', 'inequality after every single edit (runtime)',
                         'symmetry for mixed token/tree comparisons']
     ctx.assumptions += ['list/tuple == is element-wise', 'a zero-width placeholder carries no text or structure']
